@@ -139,6 +139,8 @@ func (p *Population) StoreInnovation(innovation Innovation) {
 }
 
 func (p *Population) Innovations() []Innovation {
+	p.mutex.Lock()
+	defer p.mutex.Unlock()
 	return p.innovations
 }
 
